@@ -13,6 +13,8 @@ the set of events (calls, stores, returns) that can happen — compared with the
 import math
 
 
+import os as _os
+_TOPS = set() if _os.environ.get("MAHF_SA_TOPS") else None
 BOXLIKE = ("alloc::boxed::Box", "core::ptr::unique::Unique", "core::ptr::non_null::NonNull")
 
 
@@ -104,7 +106,7 @@ _FID = [0]
 
 
 class Interp:
-    def __init__(self, body, oracle, args, max_visits=3, max_paths=4000, facts=None, inline=None, depth=0, max_depth=8):
+    def __init__(self, body, oracle, args, max_visits=10, max_paths=4000, facts=None, inline=None, depth=0, max_depth=8):
         """args: list of initial values for _1.._argc (TOP for unknown).
         facts + inline(key) -> bool: crate-local callees for which inline(key) holds are interpreted
         too (bounded by max_depth), as are closures / fn items handed to Option/Result combinators."""
@@ -122,6 +124,8 @@ class Interp:
         self.fid = _FID[0]
         self.init_state = {}
         self.mstate = {}   # model state of the path being executed (oracles may read and update it)
+        self.inline_siblings = True
+        self.root_files = None
         self.dispatch = False    # resolve calls on trait objects by the abstract value's type (virtual dispatch)
         self.slice_len = None    # hook: length of a modelled slice value
         self.index_hook = None   # hook: indexing into a modelled collection
@@ -186,6 +190,20 @@ class Interp:
             return Agg(v.kind, v.name, v.variant, [self.resolve_own(env, x, depth + 1) for x in v.fields])
         return v
 
+    def sibling(self, key):
+        """a private helper function defined in the same source file as the function under evaluation (an extracted
+        helper is part of the code being evaluated, whatever the rule's inlining predicate says)"""
+        if not self.inline_siblings or not key:
+            return False
+        rf = self.root_files
+        if rf is None:
+            fn0 = getattr(self.body, "fn", None)
+            rf = self.root_files = {fn0.file} if fn0 is not None else set()
+        cf = self.facts.fn_opt(key)
+        if cf is None or cf.kind not in ("Fn", "AssocFn") or cf.vis in ("pub", "public") or cf.impl_trait:
+            return False
+        return cf.file in rf
+
     def promoted_value(self, idx):
         """value of a promoted constant of this body's function (`&(0.0..=1.0)`, `&[1, 2]`): its small body is
         interpreted; the result is the referenced value (references to plain values are transparent)"""
@@ -235,6 +253,8 @@ class Interp:
         sub = Interp(body, self.oracle, a, self.max_visits, self.max_paths, self.facts, self.inline, self.depth + 1, self.max_depth)
         sub.variant_index = self.variant_index
         sub.dispatch = self.dispatch
+        sub.inline_siblings = self.inline_siblings
+        sub.root_files = self.root_files if self.root_files is not None else ({self.body.fn.file} if getattr(self.body, "fn", None) is not None else set())
         sub.slice_len = self.slice_len
         sub.index_hook = self.index_hook
         sub.init_state = dict(self.mstate)
@@ -463,6 +483,8 @@ class Interp:
                 return Agg("tuple", None, None, [])
             if "promoted" in c:
                 return self.promoted_value(c["promoted"])
+            if "variant" in c and "adt" in c:
+                return Agg("adt", c["adt"], c["variant"], [])
             return TOP
         return TOP
 
@@ -733,6 +755,20 @@ class Interp:
                         f["fnptr_value"] = self.operand(env, f["op"])   # the function value behind the pointer (fn item, closure or symbol)
                         f.setdefault("key", "fnptr")
                         f.setdefault("name", "fnptr")
+                    pre = TOP
+                    if self.oracle is not None and f.get("key", "").startswith("core::cmp::") and f.get("resolved", {}).get("key"):
+                        # comparisons of scenario-ordered symbols are answered by the scenario's ordering, not by the
+                        # crate's comparison code (which would look inside the opaque symbols)
+                        pre = self.oracle(self, env, f, args, t, bb, path)
+                    if pre is not TOP:
+                        path.events.append(Event("call", bb, (ckey, f.get("gargs"), args, pre, t)))
+                        self.write_place(env, t["dest"], pre)
+                        if t["target"] is None:
+                            path.end = "diverge"
+                            self.paths.append(path)
+                            break
+                        bb = t["target"]
+                        continue
                     if self.facts is not None:
                         fargs = [self.freeze(env, a) for a in args]
                         outs = self.combinator(f, fargs)
@@ -756,6 +792,10 @@ class Interp:
                                     cf = self.facts.fn_opt(f.get("key", "")) if has_impl else None
                                 if cf is not None:
                                     outs = self.call_body(cf, fargs)
+                        if outs is None and f.get("kind") == "def" and self.facts is not None and self.sibling(ckey):
+                            cf = self.facts.fn_opt(ckey)
+                            if cf is not None:
+                                outs = self.call_body(cf, fargs)
                         if outs is None and f.get("kind") == "def" and self.inline and self.inline(ckey):
                             cf = self.facts.fn_opt(ckey)
                             if cf is not None:
@@ -785,6 +825,12 @@ class Interp:
                             stack.append((t["target"], e2, p2, dict(visits), dict(ms)))
                         break
                     res = self.oracle(self, env, f, args, t, bb, path) if self.oracle else TOP
+                    if _TOPS is not None and res is TOP and t["target"] is not None:
+                        kk = (getattr(getattr(self.body, "fn", None), "key", "?"), ckey)
+                        if kk not in _TOPS:
+                            _TOPS.add(kk)
+                            import sys as _sys
+                            _sys.stderr.write("[TOP] in %s: %s(%s)\n" % (kk[0], ckey, ", ".join(str(a)[:60] for a in args)))
                     path.events.append(Event("call", bb, (ckey, f.get("gargs"), args, res, t)))
                     if res == "DIVERGE":
                         path.events.append(Event("panic", bb, f.get("key")))
